@@ -35,7 +35,7 @@ REQUIRED_OBS = ["heartbeats_compared", "timeout_resets_predicted_and_seen",
                 "never_answered_from_start", "all_answered_no_reset", "custom_configs",
                 "reset_after_previous_reset", "after_init_shutdown_cycle",
                 "ticks_while_link_down", "heartbeats_after_a_skipped_tick", "chatter_frames",
-                "initialised_after_init_gave_up",
+                "initialised_after_init_gave_up", "two_clients_in_one_process",
                 "tick_with_full_queue"]
 SOAK = True   # also judged by the whole-run monitors of the soak sessions (vf/soak.py)
 BUDGET = {"quick": 100, "thorough": 1500}
@@ -176,6 +176,14 @@ def cases(tier, seed):
         if c["mode"] == "manager":
             c.update(interval=300.0, timeout=330.0)
         yield c
+    # two clients alive at the same time (same or different generation), one of them possibly
+    # shut down half-way
+    for gens in ((5, 4), (4, 4), (5, 5)):
+        for pats in (([0.0] * N, [0.0] * N), ([0.0] * N, [None] * N), ([None] * N, [0.0] * N),
+                     ([45.0, None, 0.0] * 4, [0.0, None] * 6)):
+            for sd in (None, 450.25):
+                yield {"mode": "duo", "gens": list(gens), "patterns": [list(p) for p in pats],
+                       "shutdown_first_at": sd}
     m = 60 if tier == "quick" else 15000
     for _ in range(m):
         I = rnd.choice([10.0, 60.0, 300.0, 7.5])
@@ -393,6 +401,74 @@ def run_api(case):
     return viol, obs
 
 
+def run_duo(case):
+    """Two clients alive in one process (each with its own console): what one of them does -
+    including being shut down - must not change the heartbeat of the other."""
+    viol, obs, out = [], {}, {}
+    pats = case["patterns"]
+    gens = case["gens"]
+
+    async def main(loop, net, log):
+        ws = []
+        for i in (0, 1):
+            pat = pats[i]
+
+            def answer(n, t, pat=pat):
+                if n == 1:
+                    return 0.0
+                j = n - 2
+                return pat[j] if j < len(pat) else 0.0
+            ws.append(AW.ApiWorld(gens[i], loop, net, log, knobs=C.Knobs(answer_heartbeat=answer),
+                                  host=f"10.0.0.{i + 1}"))
+        out["ok"], out["T0s"], out["m0s"] = [], [], []
+        for w in ws:
+            out["ok"].append(await w.init())
+            out["T0s"].append(loop.time())
+            out["m0s"].append(log.mark())
+        sd = case.get("shutdown_first_at")
+        if sd:
+            await asyncio.sleep(sd)
+            await ws[0].at.shutdown()
+            out["sd_t"] = loop.time()
+            await asyncio.sleep(N * 300.0 + 10.0 - sd)
+        else:
+            await asyncio.sleep(N * 300.0 + 10.0)
+        out["end"] = loop.time()
+        out["m1"] = log.mark()
+        for i, w in enumerate(ws):
+            if not (sd and i == 0):
+                await w.at.shutdown()
+
+    _, log, st = H.run(main)
+    info = {"gens": gens, "patterns": pats, "shutdown_first_at": case.get("shutdown_first_at")}
+    if st != "ok" or out.get("ok") != [True, True]:
+        viol.append({"mechanism": "heartbeat-scenario-did-not-run", "detail": dict(info, st=st,
+                                                                                   ok=out.get("ok"))})
+        return viol, obs
+    host_of = {d["conn"]: d["host"] for _, _, k, d in log.events if k == "NET.open"}
+    for i in (0, 1):
+        ev = log.events[out["m0s"][i]:out["m1"]]
+        host = f"10.0.0.{i + 1}"
+        end = out["sd_t"] - 1e-6 if (case.get("shutdown_first_at") and i == 0) else out["end"]
+        want_reqs, want_resets, tie = predict(out["T0s"][i], 300.0, 330.0, pats[i], end)
+        reqs = [t for _, t, k, d in ev if k == "CON.frame" and host_of.get(d["conn"]) == host
+                and d["cmd"]["kind"] == "version_request" and t <= end]
+        closes = [t for _, t, k, d in ev if k == "NET.close" and not d["fault"]
+                  and host_of.get(d["conn"]) == host and t <= end]
+        opens = [t for _, t, k, d in ev if k == "NET.open" and d["host"] == host]
+        if tie is not None:
+            reqs, closes, opens = ([t for t in x if t < tie - 1e-6] for x in (reqs, closes, opens))
+        o2 = {}
+        compare(viol, o2, "duo", want_reqs, want_resets, reqs, closes, opens,
+                dict(info, client=i))
+        obs["heartbeats_compared"] = obs.get("heartbeats_compared", 0) + o2.get(
+            "heartbeats_compared", 0)
+    obs["two_clients_in_one_process"] = 1
+    for x in viol:
+        x["log"] = H.log_slice(log, 30)
+    return viol, obs
+
+
 def run_manager(case):
     gen = case["gen"]
     I, W, pattern = case["interval"], case["timeout"], case["pattern"]
@@ -477,6 +553,9 @@ def run_manager(case):
 
 
 def run_case(case):
-    viol, obs = run_api(case) if case["mode"] == "api" else run_manager(case)
+    if case["mode"] == "duo":
+        viol, obs = run_duo(case)
+    else:
+        viol, obs = run_api(case) if case["mode"] == "api" else run_manager(case)
     dec = 1 if obs.get("heartbeats_compared", 0) >= 3 else 0
     return {"violations": H.cap(viol), "evals": 1, "decided": dec, "obs": obs, "sample": case}
